@@ -26,6 +26,10 @@ use zcash_pool_migration::engine::{
 };
 use zcash_pool_migration::preparation::PreparationPlan;
 use zcash_pool_migration_memory::{regtest_network, spending_key, CommitMock};
+use zcash_pool_migration::wallet::WalletMigration;
+use zcash_client_backend::data_api::testing::MockWalletDb;
+use zcash_keys::keys::UnifiedSpendingKey;
+use zcash_protocol::consensus::Network;
 use rand_core::SeedableRng;
 use zcash_pool_migration::satisfiability::{
     advance_migration, AdvanceConfig, DuenessTargets, ReorgSettleDepth, ReplanThreshold, StepSatisfiability,
@@ -834,6 +838,64 @@ fn gen_rebuilds(r: &mut Rng, oc: bool, ctx: &RbCtx, st: &mut Stats, singles_stri
     }
 }
 
+
+// ---- parameter plumbing: SchedulingParams constructors and the wallet adapter's scheduling_params ----
+
+fn params_quint(p: &SchedulingParams) -> String {
+    format!("({}, {}, {}, {}, {})", p.anchor_bucket_interval().block_count().get(), p.transfer_delay().mean().get(), p.transfer_delay().cap().get(),
+        p.preparation_delay().mean().get(), p.preparation_delay().cap().get())
+}
+/// Draw both schedules under `p` with the replaying generator; the cases carry the CONFIGURED mean
+/// (through the candidate delays) and cap of each slot.
+fn plumb_draws(r: &mut Rng, st: &mut Stats, p: &SchedulingParams, t: (u32, u32), q: (u32, u32)) {
+    for prep in [false, true] {
+        let (mean, cap) = if prep { q } else { t };
+        let n = r.range(1, 6) as usize;
+        let wl = n + r.below(6) as usize;
+        let ws = stream(r, st, wl);
+        let ds: Vec<u32> = ws.iter().map(|w| delay_candidate(mean, *w)).collect();
+        let commit = rand_height(r);
+        let o = with_rng(&ws, |g| if prep { sch::schedule_prep_broadcast_heights(p, bh(commit), n, g) } else { sch::schedule_broadcast_heights(p, bh(commit), n, g) });
+        let os = match o { None => { st.out("plumb-heights:panic"); PANIC.into() } Some((v, used)) => { st.out("plumb-heights:ok"); ok(pair(list(v.iter().map(|h| zu(u(*h)))), zu(used as u128))) } };
+        case(format!("Heights {} {} {} {} {} {}", boolc(prep), cap, commit, n, list(ds.iter().map(|d| zu(*d as u128))), os));
+    }
+}
+fn gen_plumbing(r: &mut Rng, st: &mut Stats, n: usize) {
+    let wallet = MockWalletDb::new(Network::TestNetwork);
+    let usk = UnifiedSpendingKey::from_seed(&regtest_network(true), &[7u8; 32], zip32::AccountId::ZERO).expect("usk");
+    let dist = |r: &mut Rng| -> (u32, u32) {
+        let m = match r.below(4) { 0 => r.range(1, 8) as u32, 1 => r.range(30, 90) as u32, 2 => r.range(1, 100_000) as u32, _ => r.range(1, 600) as u32 };
+        (m, m.saturating_add(match r.below(3) { 0 => 0, 1 => r.below(10) as u32, _ => r.below(5 * m as u64 + 1) as u32 }))
+    };
+    // the adapter's default path (no override): delays derived from the wallet's interval
+    let adapter = WalletMigration::new(&wallet, 0, usk.to_unified_full_viewing_key(), YesStore);
+    let p = adapter.scheduling_params();
+    case(format!("Plumb 2 144 None {}", params_quint(&p)));
+    plumb_draws(r, st, &p, (p.transfer_delay().mean().get(), p.transfer_delay().cap().get()), (p.preparation_delay().mean().get(), p.preparation_delay().cap().get()));
+    // the design-round shape: a wide transfer distribution next to a tight preparation one
+    let mut configs: Vec<((u32, u32), (u32, u32))> = vec![((40, 160), (2, 8)), ((2, 8), (40, 160)), ((66, 576), (16, 96)), ((1, 1), (1, 2)), ((u32::MAX, u32::MAX), (1, 1))];
+    for _ in 0..n { let a = dist(r); let mut b = dist(r); if b == a { b = (a.0, a.1.saturating_add(1)); } configs.push((a, b)); }
+    for (t, q) in configs {
+        let td = DelayDistribution::new(nz(t.0), nz(t.1)).expect("cap >= mean");
+        let pd = DelayDistribution::new(nz(q.0), nz(q.1)).expect("cap >= mean");
+        let cfg = format!("(Some ({}, {}, {}, {}))", t.0, t.1, q.0, q.1);
+        // SchedulingParams::new on an arbitrary grid
+        let i = rand_interval(r);
+        let p0 = SchedulingParams::new(iv(i), td, pd);
+        case(format!("Plumb 0 {} {} {}", i, cfg, params_quint(&p0)));
+        // the wallet adapter with overridden delays
+        let adapter = WalletMigration::new(&wallet, 0, usk.to_unified_full_viewing_key(), YesStore).with_scheduling_delays(td, pd);
+        let p1 = adapter.scheduling_params();
+        case(format!("Plumb 1 144 {} {}", cfg, params_quint(&p1)));
+        plumb_draws(r, st, &p1, t, q);
+        st.out("plumb:config");
+    }
+    for &i in &interval_lattice() {
+        let p = SchedulingParams::new_with_default_distributions(iv(i));
+        case(format!("Plumb 3 {} None {}", i, params_quint(&p)));
+    }
+}
+
 // ---- main ----------------------------------------------------------------------------------
 
 fn anchor_out(o: Option<(Option<BlockHeight>, usize)>, st: &mut Stats, what: &str) -> String {
@@ -1105,6 +1167,9 @@ fn main() {
     for _ in 0..a.budget(500, 6_000) {
         gen_shift_sequence(&mut r, oc, &mut st);
     }
+
+    // --- parameter plumbing ---
+    gen_plumbing(&mut r, &mut st, if big { 1500 } else { 150 });
 
     // --- rebuilds of expired transfers: singles around the expiry-modulus multiples, cohorts at one tip ---
     {
